@@ -36,8 +36,8 @@ SCALES = [0.5, 2.0, 3.0, 1000.0]
 
 def bounds(tier):
     if tier == "quick":
-        return {"base_length": "3..5 (refinement: 1 inserted sample), 2..5 (negation, affine), 4..5 with <= 2 NaN, series 4"}
-    return {"base_length": "3..6 (refinement: 1 inserted sample), 3..4 (2 inserted samples), 2..7 (negation, affine), "
+        return {"base_length": "3..5 (refinement: 1 inserted sample; 3..4 with the refined signal fed in two pieces at every border), 2..5 (negation, affine), 4..5 with <= 2 NaN, series 4"}
+    return {"base_length": "3..6 (refinement: 1 inserted sample; 3..5 with the refined signal fed in two pieces), 3..4 (2 inserted samples), 2..7 (negation, affine), "
                            "4..6 with <= 2 NaN and 7..8 with 3-4 NaN, series 5"}
 
 
@@ -51,6 +51,10 @@ def cases(tier):
         for n in range(3, (5 if q else 6) + 1):
             for p in range(1, n):
                 out.append({"rel": "refine", "det": det, "n": n, "pos": [p], "_weight": 5 ** (n + 1)})
+        for n in range(3, (4 if q else 5) + 1):
+            for p in range(1, n):
+                for cut in range(1, n + 1):
+                    out.append({"rel": "refine", "det": det, "n": n, "pos": [p], "cut": cut, "_weight": 5 ** (n + 1)})
         if not q:
             for n in (3, 4):
                 for p, p2 in itertools.combinations_with_replacement(range(1, n), 2):
@@ -107,9 +111,13 @@ def _arr(ctx, vals):
     return np.array(vals, dtype=object if ctx.sym else np.float64)
 
 
-def _run(det, data):
+def _run(det, data, cut=None):
     d = C.make(det)
-    d.process(data)
+    if cut:
+        d.process(data[:cut])
+        d.process(data[cut:])
+    else:
+        d.process(data)
     return C.observe(d)
 
 
@@ -156,8 +164,8 @@ def run(ctx, case):
             sig.insert(p, y)
             image = [i + 1 if i >= p else i for i in image]
             ins_at = [q + 1 if q >= p else q for q in ins_at] + [p]
-        o = _run(det, _arr(ctx, sig))
-        ctx.signature((rel, det, n, case["pos"], base["index_from"], base["index_to"], base["residual_index"]),
+        o = _run(det, _arr(ctx, sig), case.get("cut"))       # (optionally the refined signal arrives in two pieces)
+        ctx.signature((rel, det, n, case["pos"], case.get("cut"), base["index_from"], base["index_to"], base["residual_index"]),
                       trivial=(ncyc == 0))
         ctx.claim(eq_struct({k: o[k] for k in vkeys}, {k: base[k] for k in vkeys}), "refine.values", (o, base))
         if has_index:
